@@ -9,6 +9,7 @@ package main
 
 import (
 	"fmt"
+	"math"
 	"net/http/httptest"
 	"net/url"
 	"os"
@@ -67,7 +68,7 @@ func tagOf(f eng.Field, src string) string {
 
 func streamFront(seed uint64, n int, driver string) (*Summary, error) {
 	sum := newSummary("front", seed)
-	sum.Rule = "random flat record schemas (1..5 fields of string/int/bool/time/[]string — half of the list fields under form/query parameters named k[], with lists of one element and blank elements —, Required/Default/tests, random json/form/query/env/zog tags, source tags with options after the name or without a name) and, one case in four, a nested struct field; one record rendered through 6 front ends (Go map, zjson, zhttp JSON, form, query, env — env values padded on either side with ASCII and non-ASCII Unicode white space), in half of the cases through ONE shared schema object with a rotating first front end; non-trivial = at least one tag differs from the schema key or a field is missing; distinct = distinct (schema, record)"
+	sum.Rule = "random flat record schemas (1..5 fields of string/int (incl. integers beyond 2^53)/bool/time/[]string — half of the list fields under form/query parameters named k[], with lists of one element and blank elements —, Required/Default/tests, random json/form/query/env/zog tags, source tags with options after the name or without a name) and, one case in four, a nested struct field; one record rendered through 6 front ends (Go map, zjson, zhttp JSON, form, query, env — env values padded on either side with ASCII and non-ASCII Unicode white space), in half of the cases through ONE shared schema object with a rotating first front end; non-trivial = at least one tag differs from the schema key or a field is missing; distinct = distinct (schema, record)"
 	root := rng.New(seed)
 	var lines []string
 	var impls []string
@@ -95,6 +96,7 @@ func streamFront(seed uint64, n int, driver string) (*Summary, error) {
 		r.Shuffle(len(keys), func(x, y int) { keys[x], keys[y] = keys[y], keys[x] })
 		tagged := false
 		missing := false
+		bigInt := false
 		nested := i%4 == 3
 		for j := 0; j < nf; j++ {
 			key := keys[j]
@@ -123,6 +125,11 @@ func streamFront(seed uint64, n int, driver string) (*Summary, error) {
 			case "int":
 				f.S = &eng.Node{Kind: "prim", PK: "int", Tests: g.PrimTests("int")}
 				lv.n = int64(r.Range(-3, 12))
+				if r.P(1, 6) {
+					// integers a float64 cannot hold: the string front ends must hand the digits on unchanged
+					lv.n = rng.Pick(r, []int64{9007199254740993, -9007199254740993, math.MaxInt64, math.MaxInt64 - 100, math.MinInt64, 1234567890123456789})
+					bigInt = true
+				}
 			case "bool":
 				f.S = &eng.Node{Kind: "prim", PK: "bool"}
 				lv.b = r.P(1, 2)
@@ -275,7 +282,8 @@ func streamFront(seed uint64, n int, driver string) (*Summary, error) {
 			return out
 		}
 		rs = append(rs, rendering{name: "map", tag: "", data: func() any { return goMap.Go() }, input: goMap})
-		if len(jsonObj) > 0 {
+		// (a JSON integer beyond 2^53 is rounded by the decoder — known finding D32 —, so such records skip the JSON front ends)
+		if len(jsonObj) > 0 && !bigInt {
 			rs = append(rs, rendering{name: "zjson", tag: "json", data: func() any { return zjson.Decode(strings.NewReader(jsonDoc)) }, input: jsonV})
 			rs = append(rs, rendering{name: "zhttp-json", tag: "json", data: func() any {
 				req := httptest.NewRequest("POST", "/", strings.NewReader(jsonDoc))
